@@ -46,6 +46,7 @@ def dispatch (op : String) (j : Json) : Except String Json :=
   | "c07.toolpath" => C07.toolpath j
   | "ctl.tree" => C06.tree j
   | "c06.depth" => C06.depth j
+  | "c06.farcall" => C06.farcall j
   | _ => .error s!"unknown op {op}"
 
 def handleLine (line : String) : String :=
